@@ -9,6 +9,8 @@ enumerated on the implementation, not proved.
 import Pastel.RealInst
 import Pastel.Model.Color
 import Pastel.Lemmas.Clamp
+import Pastel.Order
+import Pastel.FloatFns
 
 namespace Pastel.C07
 open Pastel Sc ScOrd
@@ -186,5 +188,9 @@ theorem interpolateAngle_shorter_arc (a b f : ℝ) (ha0 : 0 ≤ a) (ha : a < 360
     · exact key a (b + 360) (Or.inl rfl) (Or.inr rfl) (by rw [e1, e0, min_eq_right (by linarith)]) (by rw [e1]; linarith)
     · exfalso; linarith
     · exact key a b (Or.inl rfl) (Or.inl rfl) (by rw [e0, min_eq_left (by linarith)]) (by rw [e0]; linarith)
+
+
+/-- On IEEE floats: a NaN fraction acts as fraction 1. -/
+theorem float_fraction_nan (x : Float) (h : Sc.isNaN x = true) : fraction x = 1 := fraction_nan x h
 
 end Pastel.C07
